@@ -525,6 +525,8 @@ def _dict_method(interp, st, ref, o: DictO, m, a, kwargs, frame, node):
         for s, present in interp.decide(st, ("in", repr(interp.ident_key(k)), tokref)):
             if present:
                 oo = s.heap[ref.addr]
+                if m == "pop" and getattr(interp.cfg, "emit_dict_pops", False):
+                    s.emit("DP", vrepr(k), site)
                 if oo.rest is not None:
                     v = oo.rest
                 else:
